@@ -18,7 +18,7 @@ func init() {
 			"and within 0.9*FailedUpdateTTL of a failed build no builder invocation for the key, errors served are the cached one; (b) sequential scripts of 6 Gets with the failing invocation at every position x FailedUpdateTTL {default,1h,-1} " +
 			"x entry state, judged against a small executable model (exact build count and result of every Get); (c) failure-cache entry expiry bracket [tb+0.95T, ta+1.05T] and rebuild after Errors.ExpireAll; " +
 			"distinct_nontrivial = distinct (config, schedule signature) of family-(a) runs with >=2 overlapping Gets on one key plus distinct family-(b) cells",
-		Required:    []string{"a.runs", "a.success_then_quiet.checked", "a.bursts.one_build", "a.suppression.checked", "b.sequences", "b.reexpire_sequences", "b.gets", "c.expiry.checked", "c.rebuild_after_elapse.checked", "api.Failover", "api.FailoverOf"},
+		Required:    []string{"a.runs", "a.success_then_quiet.checked", "a.bursts.one_build", "a.suppression.checked", "b.sequences", "b.reexpire_sequences", "b.past_update_ttl_sequences", "b.gets", "c.expiry.checked", "c.rebuild_after_elapse.checked", "api.Failover", "api.FailoverOf"},
 		Assumptions: []string{"suppression window is judged only for events whose monotonic timestamps lie within 0.9*FailedUpdateTTL of the failure (sound under load)", "without SyncRead redundant sequential builds are documented behaviour and only counted"},
 		Timeout:     func(string) time.Duration { return 45 * time.Minute },
 	})
@@ -32,7 +32,9 @@ func runC05(b *Batch) {
 		}
 		rng := rand.New(rand.NewSource(b.CaseSeed(i)))
 		if i%4 == 3 {
-			if i%8 == 7 {
+			if i%16 == 15 {
+				c05PastUpdateTTL(b, i, rng)
+			} else if i%8 == 7 {
 				c05Reexpire(b, i, rng)
 			} else {
 				c05Sequential(b, i, rng)
@@ -426,5 +428,55 @@ func c05Reexpire(b *Batch, idx int, rng *rand.Rand) {
 	}
 	if builds != want {
 		b.R.Violate(b, idx, "C05:"+cfg.API+":reexpire:builds", fmt.Sprintf("%s: builder invoked %d times, want %d (one failure, then served from the failure cache while the stale copy keeps expiring)", cell, builds, want), map[string]interface{}{"cell": cell, "events": r.snapshotLog()})
+	}
+}
+
+// c05PastUpdateTTL: a stale value is rebuilt successfully (possibly to an equal value: the data source did not change) with
+// a tiny UpdateTTL. Once UpdateTTL has elapsed the short-lived refreshed copy is history: the build result stays fresh for
+// the regular TTL and the builder must not be invoked again.
+func c05PastUpdateTTL(b *Batch, idx int, rng *rand.Rand) {
+	p := foPairings[rng.Intn(3)]
+	cfg := foConfig{API: p[0], BackendKind: p[1], SyncUpdate: rng.Intn(2) == 0, SyncRead: rng.Intn(2) == 0, FailHard: rng.Intn(2) == 0, MaxStaleness: time.Hour}
+	cfg.UpdateTTL = time.Millisecond
+	cfg.Observe = rng.Intn(3) != 0
+	cfg.SliceVals = cfg.Observe && cfg.API == "Failover" && rng.Intn(2) == 0
+	same := rng.Intn(2) == 0
+	sc := newSched(false, "random", rng)
+	sc.delayProb = 0
+	r := newFoRun(cfg, [][]byte{[]byte("ut-key")}, sc)
+	defer r.release()
+	prepop := r.prepopulate(rng, 0, "stale")
+	r.script = func(int, int) buildOutcome { return buildOutcome{OK: true, Same: same} }
+	r.doGet(0, getSpec{Key: 0})
+	for dl := time.Now().Add(3 * time.Second); len(r.fo.LockedKeys()) > 0 && time.Now().Before(dl); {
+		time.Sleep(50 * time.Microsecond)
+	}
+	time.Sleep(3 * time.Millisecond) // a lower bound is all that is needed: UpdateTTL (1ms) is over
+	nGets := 2 + rng.Intn(3)
+	for g := 0; g < nGets; g++ {
+		r.doGet(0, getSpec{Key: 0})
+	}
+	b.R.Eval()
+	b.R.Count("b.past_update_ttl_sequences", 1)
+	b.R.Count("api."+cfg.API, 1)
+	cell := fmt.Sprintf("past-updatettl/%s/observe=%v/same=%v", cfg, cfg.Observe, same)
+	b.R.Nontrivial(cell)
+	builds, built := 0, ""
+	for _, e := range r.snapshotLog() {
+		switch e.Kind {
+		case "build.enter":
+			builds++
+		case "build.exit":
+			if built == "" {
+				built = e.Val
+			}
+		case "get.ret":
+			if e.Get > 1 && (e.ErrKind != "" || e.Val != built) {
+				b.R.Violate(b, idx, "C05:"+cfg.API+":past-updatettl:value", fmt.Sprintf("%s: Get #%d returned (%q,%q), want the built value %q (stale was %q)", cell, e.Get, e.Val, e.Err, built, prepop), map[string]interface{}{"cell": cell, "events": r.snapshotLog()})
+			}
+		}
+	}
+	if builds != 1 {
+		b.R.Violate(b, idx, "C05:"+cfg.API+":past-updatettl:builds", fmt.Sprintf("%s: builder invoked %d times for 1+%d Gets, want 1: the successful build's result is fresh for the regular TTL, UpdateTTL only covers the time of the build", cell, builds, nGets), map[string]interface{}{"cell": cell, "events": r.snapshotLog()})
 	}
 }
